@@ -149,6 +149,10 @@ def finish(ctx, level="model_checking"):
     for v in ctx.violations:
         k = next((k for k in known if any(fnmatch.fnmatchcase(v["sig"], pat) for pat in k["signatures"])), None)
         if k is not None:
+            if k["id"] not in hit:
+                os.makedirs(ctx.path("known"), exist_ok=True)
+                with open(ctx.path("known", k["id"] + ".json"), "w") as fh:
+                    json.dump({"property": ctx.pid, "sig": v["sig"], "desc": v["desc"], "replay": v["replay"]}, fh, indent=1, default=str)
             hit.setdefault(k["id"], [k, 0])[1] += 1
         else:
             unknown.append(v)
